@@ -330,3 +330,25 @@ func VerifC02Measurement() {
 	}
 	zz.Reach("end")
 }
+
+// VerifC02ColumnKeys: the columns map has three entries: time, v and a third one whose
+// one-character name is symbolic - so it may repeat v (a hand-encoded payload can carry a
+// key twice; the later occurrence wins in a Go map). The first v has a nil in a symbolic
+// position, so a null mask that outlives the occurrence it belongs to shows up.
+func VerifC02ColumnKeys() {
+	k := zz.Byte("third_column_name")
+	zz.Assume(k >= 0x20 && k < 0x7f)
+	first := []byte{0xc0, 0x05} // [nil, 5]
+	if zz.Bool("nil_is_second") {
+		first = []byte{0x05, 0xc0}
+	}
+	b := []byte{0x82, 0xa1, 'm', 0xa3, 'c', 'p', 'u', 0xa7, 'c', 'o', 'l', 'u', 'm', 'n', 's', 0x83, 0xa4, 't', 'i', 'm', 'e', 0x92,
+		0xd3, 0x00, 0x06, 0x0a, 0x24, 0x18, 0x1e, 0x40, 0x00, 0xd3, 0x00, 0x06, 0x0a, 0x24, 0x18, 0x1e, 0x40, 0x01,
+		0xa1, 'v', 0x92}
+	b = append(b, first...)
+	b = append(b, 0xa1, k, 0x92, 0x07, 0x08) // <k>: [7, 8]
+	if k == 'v' {
+		zz.Reach("repeated-column")
+	}
+	c02Compare(b, 2)
+}
